@@ -118,19 +118,21 @@ pub fn wait_quiescent(baseline: usize) -> bool {
 }
 
 /// the temp names of background rotation (`<file with its extension replaced by unix seconds>`,
-/// bumped while taken) are replaced by `<stem>.@<rank>` (rank in numeric order = creation order)
+/// bumped while taken) are replaced by `<stem>.@<rank>` (rank in the order of their contents)
 pub fn snapshot_canon(root: &Path, file_rel: &str) -> String {
     let mut v = Vec::new();
     walk(root, root, &mut v);
     let stem = Path::new(file_rel).with_extension("");
     let stem = stem.to_string_lossy().to_string();
     let prefix = format!("{}.", stem);
-    let mut temps: Vec<(u64, usize)> = vec![];
+    // rank by content, not by number: a number freed by a finished rotation is reused within the
+    // same second, so the numbers of several stranded temp files do not reflect their age
+    let mut temps: Vec<(Vec<u8>, usize)> = vec![];
     for (i, (p, _)) in v.iter().enumerate() {
         if let Some(rest) = p.strip_prefix(&prefix) {
             if rest.len() >= 9 && rest.bytes().all(|b| b.is_ascii_digit()) {
-                if let Ok(n) = rest.parse::<u64>() {
-                    temps.push((n, i));
+                if rest.parse::<u64>().is_ok() {
+                    temps.push((v[i].1.clone(), i));
                 }
             }
         }
@@ -597,12 +599,8 @@ pub fn gen(rng: &mut Rng, n: usize, thorough: bool, emit: &mut dyn FnMut(String)
             continue;
         }
         if is_bg {
-            // a rotation thread whose compress step fails does `println!`, which blocks for ever
-            // while the harness main loop holds the stdout lock: no missing file with gz/zst here
-            let mut rolls = rolls;
-            if (sh.pattern.ends_with(".gz") || sh.pattern.ends_with(".zst")) && rolls.last().map_or(false, |r| r.is_none()) {
-                rolls.pop();
-            }
+            // (a missing file with gz/zst makes the rotation thread's compress step fail: the error is
+            // only printed, `roll` has already returned Ok)
             emit_case_bg(emit, rng, kind, sh, b, c, &init, &rolls);
         } else {
             emit_case(emit, kind, sh, b, c, &init, &rolls);
